@@ -45,6 +45,8 @@ type submitStore struct {
 	nUpload int
 	// failIssuer > 0: the next uploads of issuer/ objects fail without being applied (storage fault)
 	failIssuer int
+	// failRoots > 0: the next upload of _roots.pem fails without being applied
+	failRoots int
 	// onUpload, if set, observes every upload before it is applied (under mu).
 	onUpload func(s *submitStore, key string, data []byte, opts *ctlog.UploadOptions)
 }
@@ -61,6 +63,10 @@ func (s *submitStore) Upload(ctx context.Context, key string, data []byte, opts 
 	defer s.mu.Unlock()
 	if s.onUpload != nil {
 		s.onUpload(s, key, data, opts)
+	}
+	if s.failRoots > 0 && key == "_roots.pem" {
+		s.failRoots--
+		return fmt.Errorf("upload %s: injected storage fault (not applied)", key)
 	}
 	if s.failIssuer > 0 && strings.HasPrefix(key, "issuer/") {
 		s.failIssuer--
